@@ -203,6 +203,180 @@ def not_is_none(tree):
     return _NotIsNone().visit(tree)
 
 
+# --------------------------------------------------------------------------------------------- T9: hoist self.<table> into locals
+_REBINDERS = ("__init__", "populate_from_dict")
+
+
+def hoist_self_attrs(tree):
+    """`self._x` -> local alias bound once at the top of the method, for attributes that are only ever rebound in
+    constructors / raw setters (so the alias and the attribute stay the same object)"""
+    for cls in [n for n in tree.body if isinstance(n, ast.ClassDef)]:
+        rebound_elsewhere = set()
+        for m in [x for x in cls.body if isinstance(x, ast.FunctionDef)]:
+            for n in ast.walk(m):
+                if isinstance(n, ast.Attribute) and isinstance(n.ctx, (ast.Store, ast.Del)) and isinstance(n.value, ast.Name) and n.value.id == "self":
+                    if not (m.name in _REBINDERS or m.name.startswith("set_")):
+                        rebound_elsewhere.add(n.attr)
+        for m in [x for x in cls.body if isinstance(x, ast.FunctionDef)]:
+            if m.name in _REBINDERS or m.name.startswith("set_") or not m.args.args or m.args.args[0].arg != "self":
+                continue
+            if any(isinstance(n, (ast.FunctionDef, ast.Lambda)) and n is not m for n in ast.walk(m)):
+                continue
+            if any(isinstance(n, ast.Call) and isinstance(n.func, ast.Attribute) and n.func.attr in _REBINDERS + ("clear",) or (isinstance(n, ast.Call) and isinstance(n.func, ast.Attribute) and n.func.attr.startswith("set_")) for n in ast.walk(m)):
+                continue
+            loads = {}
+            stores = set()
+            for n in ast.walk(m):
+                if isinstance(n, ast.Attribute) and isinstance(n.value, ast.Name) and n.value.id == "self" and n.attr.startswith("_") and not n.attr.startswith("__"):
+                    if isinstance(n.ctx, ast.Load):
+                        loads[n.attr] = loads.get(n.attr, 0) + 1
+                    else:
+                        stores.add(n.attr)
+            # only container-valued attributes (subscripted / iterated / method-called somewhere), never scalars
+            containerish = set()
+            for n in ast.walk(m):
+                for holder in ([n.value] if isinstance(n, ast.Subscript) else [n.func.value] if isinstance(n, ast.Call) and isinstance(n.func, ast.Attribute) else [n.iter] if isinstance(n, (ast.For, ast.comprehension)) else [n.comparators[0]] if isinstance(n, ast.Compare) and len(n.ops) == 1 and isinstance(n.ops[0], (ast.In, ast.NotIn)) else []):
+                    if isinstance(holder, ast.Attribute) and isinstance(holder.value, ast.Name) and holder.value.id == "self":
+                        containerish.add(holder.attr)
+            names = {x.id for x in ast.walk(m) if isinstance(x, ast.Name)} | {a.arg for a in m.args.args}
+            ren = {}
+            for attr, cnt in loads.items():
+                if cnt >= 2 and attr in containerish and attr not in stores and attr not in rebound_elsewhere:
+                    local = attr.lstrip("_") + "_tbl"
+                    if local not in names:
+                        ren[attr] = local
+            if not ren:
+                continue
+
+            class R(ast.NodeTransformer):
+                def visit_Attribute(self, n):
+                    self.generic_visit(n)
+                    if isinstance(n.value, ast.Name) and n.value.id == "self" and n.attr in ren and isinstance(n.ctx, ast.Load):
+                        return ast.copy_location(ast.Name(id=ren[n.attr], ctx=ast.Load()), n)
+                    return n
+
+            body = [R().visit(st) for st in m.body]
+            first = 1 if body and isinstance(body[0], ast.Expr) and isinstance(body[0].value, ast.Constant) and isinstance(body[0].value.value, str) else 0
+            binds = [ast.Assign(targets=[ast.Name(id=loc, ctx=ast.Store())], value=ast.Attribute(value=ast.Name(id="self", ctx=ast.Load()), attr=attr, ctx=ast.Load()), lineno=m.lineno) for attr, loc in sorted(ren.items())]
+            m.body = body[:first] + binds + body[first:]
+    return tree
+
+
+# --------------------------------------------------------------------------------------------- T10: list comprehension -> loop
+class _CompToLoop(ast.NodeTransformer):
+    def __init__(self, fn):
+        self.fn = fn
+        self.names = {}
+        for n in ast.walk(fn):
+            if isinstance(n, ast.Name):
+                self.names[n.id] = self.names.get(n.id, 0) + 1
+
+    def visit_Assign(self, n):
+        if len(n.targets) == 1 and isinstance(n.targets[0], ast.Name) and isinstance(n.value, ast.ListComp) and len(n.value.generators) == 1 and not n.value.generators[0].is_async:
+            g = n.value.generators[0]
+            tnames = [x.id for x in ast.walk(g.target) if isinstance(x, ast.Name)]
+            inside = {}
+            for x in ast.walk(n.value):
+                if isinstance(x, ast.Name):
+                    inside[x.id] = inside.get(x.id, 0) + 1
+            # the comprehension variable must not exist outside the comprehension (it would leak / clobber)
+            if all(self.names.get(t, 0) == inside.get(t, 0) for t in tnames) and n.targets[0].id not in inside and not any(isinstance(x, (ast.Lambda, ast.ListComp, ast.SetComp, ast.DictComp, ast.GeneratorExp)) and x is not n.value for x in ast.walk(n.value)):
+                acc = n.targets[0].id
+                app = ast.Expr(value=ast.Call(func=ast.Attribute(value=ast.Name(id=acc, ctx=ast.Load()), attr="append", ctx=ast.Load()), args=[n.value.elt], keywords=[]))
+                body = [app]
+                for c in reversed(g.ifs):
+                    body = [ast.If(test=c, body=body, orelse=[])]
+                loop = ast.For(target=g.target, iter=g.iter, body=body, orelse=[], lineno=n.lineno)
+                init = ast.Assign(targets=[ast.Name(id=acc, ctx=ast.Store())], value=ast.List(elts=[], ctx=ast.Load()), lineno=n.lineno)
+                return [init, loop]
+        return n
+
+    def visit_FunctionDef(self, n):
+        return n if n is not self.fn else self.generic_visit(n)
+
+    def visit_Lambda(self, n):
+        return n
+
+
+def comp_to_loop(tree):
+    for fn in _functions(tree):
+        _CompToLoop(fn).visit(fn)
+    return tree
+
+
+# --------------------------------------------------------------------------------------------- T11: del d[k] -> d.pop(k)
+class _DelToPop(ast.NodeTransformer):
+    def visit_Delete(self, n):
+        if len(n.targets) == 1 and isinstance(n.targets[0], ast.Subscript) and not isinstance(n.targets[0].slice, ast.Slice):
+            t = n.targets[0]
+            return ast.copy_location(ast.Expr(value=ast.Call(func=ast.Attribute(value=t.value, attr="pop", ctx=ast.Load()), args=[t.slice], keywords=[])), n)
+        return n
+
+
+def del_to_pop(tree):
+    # only on dict-typed internal tables of the containers: `del self._x[k]` / `del <name>[k]` where name ends in a table-ish word
+    class Only(_DelToPop):
+        def visit_Delete(self, n):
+            if len(n.targets) == 1 and isinstance(n.targets[0], ast.Subscript):
+                base = n.targets[0].value
+                if isinstance(base, ast.Attribute) and isinstance(base.value, ast.Name) and base.value.id == "self" and base.attr.startswith("_") and "adj" not in base.attr or (isinstance(base, ast.Attribute) and base.attr in ("_adj", "_adj_source", "_adj_target")):
+                    return super().visit_Delete(n)
+            return n
+
+    return Only().visit(tree)
+
+
+# --------------------------------------------------------------------------------------------- T12: x not in d -> not x in d
+class _NotIn(ast.NodeTransformer):
+    def visit_Compare(self, n):
+        self.generic_visit(n)
+        if len(n.ops) == 1 and isinstance(n.ops[0], ast.NotIn):
+            return ast.copy_location(ast.UnaryOp(op=ast.Not(), operand=ast.Compare(left=n.left, ops=[ast.In()], comparators=n.comparators)), n)
+        return n
+
+
+def not_in(tree):
+    return _NotIn().visit(tree)
+
+
+# --------------------------------------------------------------------------------------------- T13: drop `else` after a returning branch
+def _always_leaves(stmts) -> bool:
+    if not stmts:
+        return False
+    last = stmts[-1]
+    if isinstance(last, (ast.Return, ast.Raise, ast.Continue, ast.Break)):
+        return True
+    if isinstance(last, ast.If) and last.orelse:
+        return _always_leaves(last.body) and _always_leaves(last.orelse)
+    return False
+
+
+def _flatten_else(stmts):
+    out = []
+    for st in stmts:
+        for fld in ("body", "orelse", "finalbody"):
+            sub = getattr(st, fld, None)
+            if isinstance(sub, list) and sub and isinstance(sub[0], ast.stmt):
+                setattr(st, fld, _flatten_else(sub))
+        if isinstance(st, ast.Try):
+            for h in st.handlers:
+                h.body = _flatten_else(h.body)
+        if isinstance(st, ast.If) and st.orelse and _always_leaves(st.body) and isinstance(st.body[-1], (ast.Return, ast.Raise)):
+            rest = st.orelse
+            st.orelse = []
+            out.append(st)
+            out.extend(rest)
+        else:
+            out.append(st)
+    return out
+
+
+def drop_else_after_return(tree):
+    for fn in [n for n in ast.walk(tree) if isinstance(n, (ast.FunctionDef, ast.AsyncFunctionDef))]:
+        fn.body = _flatten_else(fn.body)
+    return tree
+
+
 TRANSFORMS: Dict[str, Callable] = {
     "identity-unparse": lambda t: t,
     "rename-locals": rename_locals,
@@ -213,6 +387,11 @@ TRANSFORMS: Dict[str, Callable] = {
     "drop-keys": drop_keys,
     "expand-aug": expand_aug,
     "not-is-none": not_is_none,
+    "hoist-self-attrs": hoist_self_attrs,
+    "comp-to-loop": comp_to_loop,
+    "del-to-pop": del_to_pop,
+    "not-in": not_in,
+    "drop-else-after-return": drop_else_after_return,
 }
 
 
